@@ -70,7 +70,7 @@ func (e StopError) Error() string {
 
 // Parse parses input and returns the parsed Expr or an error.
 func (pc ParseContext) Parse(ctx context.Context, s *parser.Scanner) (ast.Branch, error) {
-	rscopes := []rel.Scope{{}}
+	rscopes := []rel.Scope{baseScope(ctx)}
 	//FIXME: create a cut error in wbnf so that deep import errors don't get thrown away
 	var deepImportError error
 	v, err := arraiParsers.ParseWithExternals(parser.Rule("expr"), s, parser.ExternalRefs{
